@@ -3,8 +3,11 @@
 
    Granularity (as the property states it): an interleaving is a merge of the tasks' step lists of
    Model/Parallel.v, where the objective call and the store synchronisation are separate steps.  Thread
-   switches inside one step (CPython byte code, GIL, joblib, SQLite locking) are exercised by the
-   correspondence runs, not modelled: the claimed level is "proof, partial".
+   switches inside one step (CPython byte code, GIL, joblib dispatch, SQLite's locking protocol) are
+   exercised by the correspondence runs, not modelled: the claimed level is "proof, partial".  The
+   OperationalError retry of sync_individual IS modelled (Model/Parallel.v XRefused: a refused write attempt
+   is a step without effect; theorems C07_refused_store_writes_* below), under the assumption that the lock
+   is eventually released.
    Every theorem quantifies over every batch (any size), every merge (hence every worker count: a run
    with k workers is one of the merges) and every objective / constraint / re-roll oracle that is
    `local_env` (does not look at the global call number). *)
